@@ -18,7 +18,8 @@ import (
 // be a reviewed site.
 
 var c01ConvReviewed = map[string]string{
-	"predicateIsTrue: int(xpos - 1)": "positional predicates [n] are outside the property (the supported grammar has [key = operand] predicates only); an out-of-range value yields a position that matches no entry",
+	// function → reason; covers the one conversion that function contains
+	"predicateIsTrue": "positional predicates [n] are outside the property (the supported grammar has [key = operand] predicates only); an out-of-range value yields a position that matches no entry",
 }
 
 func c01FloatToInt(w *World, r *Report) {
@@ -51,7 +52,7 @@ func c01FloatToInt(w *World, r *Report) {
 				}
 				src := w.ExprAt(cv.Pos())
 				key := fmt.Sprintf("%s: %s", name, src)
-				if why, ok := c01ConvReviewed[key]; ok {
+				if why, ok := c01ConvReviewed[nm(w.OwnerChain(f)[0])]; ok && perFn == 1 {
 					r.Reviewed("R01.7", key, cv.Pos(), why)
 					continue
 				}
